@@ -734,11 +734,19 @@ def argmin(array, axis=None, keepdims=False, mask_identity=True):
             best_value = None
             for partition in layout.partitions:
                 for tmp in ak._util.completely_flatten(partition):
+                    if len(tmp) == 0:
+                        continue
                     out = ak.nplike.of(tmp).argmin(tmp, axis=None)
                     if best_index is None or tmp[out] < best_value:
                         best_index = start + out
                         best_value = tmp[out]
-                start += len(partition)
+                    # positions count the flattened items, not the entries of the partition
+                    start += len(tmp)
+            if best_index is None:
+                raise ValueError(
+                    "attempt to get argmin of an empty sequence"
+                    + ak._util.exception_suffix(__file__)
+                )
             return best_index
 
         else:
@@ -804,11 +812,19 @@ def argmax(array, axis=None, keepdims=False, mask_identity=True):
             best_value = None
             for partition in layout.partitions:
                 for tmp in ak._util.completely_flatten(partition):
+                    if len(tmp) == 0:
+                        continue
                     out = ak.nplike.of(tmp).argmax(tmp, axis=None)
                     if best_index is None or tmp[out] > best_value:
                         best_index = start + out
                         best_value = tmp[out]
-                start += len(partition)
+                    # positions count the flattened items, not the entries of the partition
+                    start += len(tmp)
+            if best_index is None:
+                raise ValueError(
+                    "attempt to get argmax of an empty sequence"
+                    + ak._util.exception_suffix(__file__)
+                )
             return best_index
 
         else:
